@@ -9,7 +9,8 @@ RULE = ("seeded swarm of account histories over {quote, trade(open/add/reduce/cl
         "advance+accrue} on 1-5 spot-like/margined contracts (user-defined and built-in), fees and spreads; the exact "
         "Fraction ledger identity and per-operation NLV deltas are evaluated after every operation. A run is non-trivial "
         "if it executed >=1 trade and hit >=1 probe; distinct = distinct abstract traces (op kind x signs of positions "
-        "per contract kind x quote regime) among those")
+        "per contract kind x quote regime) among those. A third of the runs also execute a model-free twin: the same script on an "
+        "account in which one contract is spot-like instead of margined (or vice versa), whose NLV path must coincide")
 ASSUMPTIONS = [
     "quotes 0 < bid <= ask; fees fixed >= 0, proportional >= 0; trades built from the exchange's current quotes",
     "tolerance 1e-9 x max(deposit, gross notional seen) plus the documented epsilon-flattening slack of Broker.transact",
@@ -18,7 +19,7 @@ ASSUMPTIONS = [
 COMPONENTS = {"real": ["Exchange", "LimitOrderBook", "Broker", "Trade", "Rebalancing", "BrokerFees", "TrackRecord", "contracts"],
               "harness": ["user-defined AbstractContract subclasses", "Fraction ledger"], "stub": []}
 PROBE_FLOORS = {"add_to_margined_under_spread": 30, "flip_through_zero": 30, "close_exactly": 30,
-                "spot_multiplier_not_1": 30, "two_margined_open": 30, "negative_cash": 10, "rebalance_built_trade": 30}
+                "spot_multiplier_not_1": 30, "two_margined_open": 30, "negative_cash": 10, "rebalance_built_trade": 30, "twin_compared": 300}
 
 PROFILE = {
     "oracles": ["c01"],
@@ -30,7 +31,13 @@ PROFILE = {
 
 
 def generate(rng, i):
-    return gen_acct.generate(rng, PROFILE)
+    sc = gen_acct.generate(rng, PROFILE)
+    # differential twin (oracle 3): no rate events, no interest; only user-defined / built-in non-rate contracts
+    has_interest = any(op["op"] in ("rate", "accrue") for op in sc["script"])
+    if rng.random() < 0.35 and not has_interest:
+        sc["twin"] = rng.randrange(len(sc["contracts"]))
+        sc["twin_mreq"] = rng.choice([0.05, 0.25, 1.0])
+    return sc
 
 
 def execute(scenario):
